@@ -44,7 +44,8 @@ COMPONENTS = {
 }
 EXPECTED_PROBES = ["step_slice", "step_take", "step_mask", "step_concat",
                    "step_concat_slices_of_one_parent", "non_dyadic_coordinates",
-                   "step_sindex_built_on_array", "step_pickle",
+                   "step_sindex_built_on_array", "rejected_ndarray_indexer_reused",
+                   "iteration_over_more_than_2048_elements", "step_pickle",
                    "step_parquet", "step_series", "step_int", "invalid_request_checked",
                    "chain_depth_ge_3", "nonzero_offset_array", "take_ascending_with_repeats"]
 
@@ -170,6 +171,23 @@ def _drive(case, root, fs, probes, sig, done):
         if op == "bad_take":
             _expect(lambda: arr.take([0, n + 3]), IndexError, f"take out of bounds on length {n}", sig)
             if n > 0:
+                # an ndarray indexer that this array rejects is still the caller's: it must be
+                # unchanged afterwards and select the same rows wherever it is valid
+                src_arr, src_mod, _ = pool[0]
+                m = len(src_mod)
+                if m > n:
+                    idx = np.array([-(n + 1), 0, -m], dtype=np.int64)
+                    keep = idx.copy()
+                    _expect(lambda: arr.take(idx), IndexError, "take below -len (ndarray)", sig)
+                    if not np.array_equal(idx, keep):
+                        raise Bad("indexer-mutated@take", f"a rejected take changed the caller's "
+                                  f"indexer from {keep.tolist()} to {idx.tolist()}")
+                    got = _guard("take with the same indexer on the source",
+                                 lambda: src_arr.take(idx), sig)
+                    _check(got, [src_mod[j] for j in keep.tolist()], case, "take-after-rejected",
+                           sig, probes, st, shape_arr)
+                    probes["rejected_ndarray_indexer_reused"] = 1
+            if n > 0:
                 _expect(lambda: arr.take([-n - 2], allow_fill=False), IndexError,
                         "take below -len", sig)
                 _expect(lambda: arr.take([-2], allow_fill=True), ValueError,
@@ -261,6 +279,25 @@ def _drive(case, root, fs, probes, sig, done):
             new = _guard("copy", lambda: arr.copy(), sig)
             newmod = list(mod)
             done.append(("copy",))
+        elif op == "iter" and st["bits"] & 8 and 0 < n:
+            # iteration over a LONG array (block-wise conversions have their own boundaries)
+            reps = 2100 // n + 1
+            pos = list(range(n)) * reps
+            long_arr = _guard("take (tile)", lambda: arr.take(pos), sig)
+            els = _guard("iter (long array)", lambda: list(long_arr), sig)
+            if len(els) != len(pos):
+                raise Bad("length@iter", f"iterating an array of {len(pos)} elements yielded "
+                          f"{len(els)}")
+            kcls = gen.array_class(kind)
+            for j in (0, 1023, 1024, 2047, 2048, len(pos) - 1):
+                e = els[j]
+                gotv = None if e is None else models.array_values(kcls([e], dtype=arr.dtype))[0]
+                if not models.values_equal(gotv, mod[pos[j]]):
+                    raise Bad("element-mismatch@iter", f"element {j} of a long iteration is "
+                              f"{gotv}, model {mod[pos[j]]}")
+            probes["iteration_over_more_than_2048_elements"] = 1
+            done.append(("iter_long", len(pos)))
+            continue
         elif op == "iter":
             els = _guard("iter", lambda: list(arr), sig)
             new = _guard("from elements", lambda: gen.array_class(kind)(els, dtype=arr.dtype)
